@@ -522,6 +522,27 @@ def readback_problems(line, data, samples):
     return problems
 
 
+def banned_problems(line, data, samples):
+    """alleles that are masked or have zero prior never occur in a GT and have zero posterior frequency / probability"""
+    banned = set(getattr(data, "banned", []) or [])
+    if not banned:
+        return []
+    problems = []
+    f = line.rstrip("\n").split("\t")
+    keys = f[8].split(":")
+    for s, colv in zip(samples, f[9:]):
+        vals = dict(zip(keys, colv.split(":")))
+        gt = [int(x) for x in vals["GT"].split("/") if x != "."]
+        if set(gt) & banned:
+            problems.append(("masked-allele-called", "sample %s GT %s uses a masked / zero-prior allele (%s)" % (s, vals["GT"], sorted(banned))))
+        for k in ("AFP", "AOP", "ACP"):
+            if k in vals and vals[k] != ".":
+                xs = vals[k].split(",")
+                if any(i < len(xs) and xs[i] not in (".", "0") and float(xs[i]) != 0 for i in banned):
+                    problems.append(("masked-allele-called", "sample %s %s=%s gives posterior weight to a masked / zero-prior allele (%s)" % (s, k, vals[k], sorted(banned))))
+    return problems
+
+
 # ------------------------------------------------------------------ vcfstr on every 3-decimal value of a range
 
 
@@ -595,7 +616,9 @@ def _run_exact_line(c, col):
             fs[:] = rnp.nan
         prog = cx.program.__new__(cx.program)
         prog.info_fields, prog.format_fields = list(infof), list(fmtf)
-        for k, v in dict(samples=samples, sample_ploidy=dict(ploidy), sample_inbreeding={"s0": 0.0, "s1": 0.25}, precision=3).items():
+        tag = "AFP" if int(E.SymInt(E.fresh_int(ctx, "tag", 0, 1))) else None  # with or without --prior-frequencies
+        for k, v in dict(samples=samples, sample_ploidy=dict(ploidy), sample_inbreeding={"s0": 0.0, "s1": 0.25}, precision=3,
+                         prior_frequencies_tag=tag, filter_input_haplotypes=None).items():
             setattr(prog, k, v)
         data = prog._locus_data(_PriorLocus(haps, fs, mask), {s: [] for s in samples})
         for s in samples:
@@ -610,6 +633,7 @@ def _run_exact_line(c, col):
             data.sampledata[FORMAT.SNVDP][s] = rnp.array([7.0])
         prog.call_sample_genotypes(data)
         prog.sumarise_vcf_record(data)
+        data.banned = [i for i in range(nA) if zero[i]]
         return data.format_vcf_record(), data
 
     first = True
@@ -623,7 +647,7 @@ def _run_exact_line(c, col):
             col.reachable(pr.ctx)
             first = False
         line, data = pr.value
-        problems = parse_line(line, infof, fmtf, samples, ploidy, {1}, "AAA") or readback_problems(line, data, samples)
+        problems = parse_line(line, infof, fmtf, samples, ploidy, {1}, "AAA") or readback_problems(line, data, samples) or banned_problems(line, data, samples)
         if problems:
             col.fail(site, problems[0][0], shape=dict(prog="call-exact"), witness=dict(line=line, problems=[p[1] for p in problems][:4], model=E.model_dict(E.prove(pr.ctx, False).model)), desc=problems[0][1])
         else:
@@ -689,6 +713,7 @@ def _run_ped_line(c, col):
                          sample_inbreeding={s: 0.0 for s in samples}, precision=3, sample_parents={"s0": (None, None), "s1": (None, None), "s2": ("s0", "s1")},
                          gamete_ploidy={s: (1, 1) for s in samples}, gamete_ibd={s: (0.0, 0.0) for s in samples}, gamete_error={s: (0.01, 0.01) for s in samples}).items():
             setattr(prog, k, v)
+        prog.prior_frequencies_tag, prog.filter_input_haplotypes = None, None
         data = prog._locus_data(_PriorLocus(haps, fs, mask), {s: [] for s in samples})
         for s in samples:
             data.read_calls[s] = rnp.zeros((1, 1), dtype=int)
@@ -700,6 +725,7 @@ def _run_ped_line(c, col):
             data.sampledata[FORMAT.SNVDP][s] = rnp.array([7.0])
         prog.call_sample_genotypes(data)
         prog.sumarise_vcf_record(data)
+        data.banned = [i for i in range(nA) if zero[i] or (i == 0 and mask)]
         return data.format_vcf_record(), data
 
     first = True
@@ -713,7 +739,7 @@ def _run_ped_line(c, col):
             col.reachable(pr.ctx)
             first = False
         line, data = pr.value
-        problems = parse_line(line, infof, fmtf, samples, ploidy, {1}, "AAA") or readback_problems(line, data, samples)
+        problems = parse_line(line, infof, fmtf, samples, ploidy, {1}, "AAA") or readback_problems(line, data, samples) or banned_problems(line, data, samples)
         if problems:
             col.fail(site, problems[0][0], shape=dict(prog="call-pedigree"), witness=dict(line=line, problems=[p[1] for p in problems][:4], model=E.model_dict(E.prove(pr.ctx, False).model)), desc=problems[0][1])
         else:
